@@ -35,8 +35,8 @@ PROPS["C07"] = dict(
         SC_NOTE,
     ],
     runs=[
-        run("agg-double", "c07_rc", "agg_double", "rc", dict(procs=4, cases=12000), dict(procs=5, cases=150000)),
-        run("agg-long", "c07_rc", "agg_long", "rc", dict(procs=4, cases=12000), dict(procs=5, cases=150000)),
-        run("meter-cycles", "c07_rc", "meter_cycles", "rc", dict(procs=8, cases=4000), dict(procs=6, cases=60000)),
+        run("agg-double", "c07_rc", "agg_double", "rc", dict(procs=4, cases=40000), dict(procs=5, cases=400000)),
+        run("agg-long", "c07_rc", "agg_long", "rc", dict(procs=4, cases=40000), dict(procs=5, cases=400000)),
+        run("meter-cycles", "c07_rc", "meter_cycles", "rc", dict(procs=8, cases=10000), dict(procs=6, cases=100000)),
     ],
 )
